@@ -142,7 +142,8 @@ def main(argv=None):
 
     # ---- reach landmarks / inconclusive ---------------------------------
     reach_rep = {
-        q: {"executed": len(e["hit_text"]), "executable": e["executable"]} for q, e in m["reach"].items()
+        # counted as distinct source-line texts on both sides (a text repeated inside a function counts once)
+        q: {"executed": len(e["hit_text"] & e["all_text"]) if e["all_text"] else len(e["hit_text"]), "executable": max(len(e["all_text"]) or e["executable"], len(e["hit_text"]) if not e["all_text"] else 0)} for q, e in m["reach"].items()
     }
     if os.environ.get("VERIF_DUMP_REACH"):
         # developer aid (tools/unreached.sh): source text of the anchored lines no case executed
